@@ -1,6 +1,6 @@
 (* Property C06 — a partitioned (parallel) data set reads as the whole data set. *)
 From Coq Require Import ZArith Bool Arith List Permutation.
-From FC Require Import Model.Merge Model.Structured Proofs.MergeP Proofs.StructuredP Proofs.PMergeP.
+From FC Require Import Model.Merge Model.Structured Proofs.MergeP Proofs.StructuredP Proofs.PMergeP Model.Paths Proofs.PathsP.
 Import ListNotations.
 Local Open Scope nat_scope.
 
@@ -154,6 +154,15 @@ Theorem C06_pmerge_is_global : forall (b0 b1 b2 : Z) (s0 s1 s2 : list Z) (listin
   pmerge zero (exts b0 b1 b2 s0 s1 s2 listing) is_point piece_fields = g.
 Proof. intros b0 b1 b2 s0 s1 s2 listing A0 A1 A2 H ND. apply pmerge_is_global; assumption. Qed.
 Print Assumptions C06_pmerge_is_global.
+
+(* where the pieces are looked up (finding F-C06g): a relative piece name that exists next to the index file is read from there,
+   whatever the working directory holds; absolute names are taken as given; the pinned rule preferred a namesake in the working
+   directory *)
+Theorem C06_pieces_next_to_index : (forall in_cwd, resolve_fixed false in_cwd true = NextToIndex)
+  /\ (forall in_cwd next_to_index, resolve_fixed true in_cwd next_to_index = AsGiven)
+  /\ resolve_pinned false true true = AsGiven.
+Proof. split; [exact resolve_fixed_ignores_cwd|]. split; [exact resolve_fixed_absolute|]. reflexivity. Qed.
+Print Assumptions C06_pieces_next_to_index.
 
 (* finding F-C06b: the numeric type of the merged array — pinned: always float64; repaired: that of the pieces *)
 Theorem C06_smerge_dtype : (forall d, smerge_dtype_fixed d = d) /\ smerge_dtype_pinned I32 <> I32.
